@@ -91,6 +91,7 @@ class Evaluator:
     def __init__(self, prog: Program, oracle=None, overrides=None, seed=0):
         self.prog = prog
         self.oracle = oracle              # callable(cond_expr, node, frame) -> True/False/None
+        self.debug_allclose = bool(__import__("os").environ.get("PBV_DBG_AC"))
         self.overrides = dict(DEFAULT_OVERRIDES)   # dotted repo name -> handler(ev, args, kwargs, node, frame, fn)
         self.overrides.update(overrides or {})
         self._idx = 0
@@ -563,6 +564,10 @@ class Evaluator:
             if isinstance(cur, ListV) and isinstance(s.op, ast.Add):
                 cur.items.extend(self.iterate(rhs, fr, s))
                 return None
+            if isinstance(cur, Num) and cur.backend == "numpy" and (cur.shape or cur.tag == "data") and getattr(rhs, "backend", None) == "dask":
+                # ndarray.__imul__(dask array) is np.multiply(x, d, out=x): Dask's __array_ufunc__ refuses an ndarray as out=
+                raise Raised("NotImplementedError", s, "The out parameter is not fully supported. Received type ndarray, expected Dask Array",
+                             origin=(fr.fi.qualname if fr is not None and fr.fi is not None else None))
             v = self.binop(s.op, cur, rhs, s, fr)
             self.assign(s.target, v, fr)
             # NumPy's augmented operators work in place: every other name / attribute / container slot of this frame that
@@ -1247,6 +1252,9 @@ class Evaluator:
             for u_, v_ in ((a, b), (b, a)):
                 if isinstance(u_, OpaqueV) and u_.what in ("timeformat", "timescale") and isinstance(v_, StrV):
                     c_ = sp.Symbol(f"{u_.what}_is_{v_.s}")
+                    return CondV(c_ if isinstance(op, ast.Eq) else sp.Not(c_))
+                if isinstance(u_, OpaqueV) and u_.what == "timeprecision" and isinstance(v_, Num) and v_.expr.is_number:
+                    c_ = sp.Symbol(f"timeprecision_is_{v_.expr}")
                     return CondV(c_ if isinstance(op, ast.Eq) else sp.Not(c_))
             eq = self.equal_vals(a, b)
             if eq is None:
